@@ -51,6 +51,17 @@ impl<R: Read + Seek> ChunkReader<R> {
     /// The reader should be positioned at the start of chunk data (after header)
     pub fn new(mut reader: R, header: ChunkHeader) -> Result<Self> {
         let chunk_start = reader.stream_position()?;
+        // The declared size must fit in what the reader actually holds
+        let stream_end = reader.seek(SeekFrom::End(0))?;
+        reader.seek(SeekFrom::Start(chunk_start))?;
+        if header.size as u64 > stream_end.saturating_sub(chunk_start) {
+            return Err(M2Error::ParseError(format!(
+                "Chunk {} declares {} bytes but only {} are available",
+                header.magic_str(),
+                header.size,
+                stream_end.saturating_sub(chunk_start)
+            )));
+        }
         Ok(ChunkReader {
             inner: reader,
             chunk_start,
@@ -73,6 +84,18 @@ impl<R: Read + Seek> ChunkReader<R> {
     pub fn remaining(&mut self) -> Result<u32> {
         let pos = self.chunk_position()?;
         Ok(self.chunk_size.saturating_sub(pos))
+    }
+
+    /// Validate an element count read from the chunk: `count` elements of `element_size`
+    /// bytes must fit in the bytes remaining in the chunk
+    pub fn checked_count(&mut self, count: u32, element_size: u32) -> Result<usize> {
+        let remaining = self.remaining()?;
+        if count as u64 * element_size as u64 > remaining as u64 {
+            return Err(M2Error::ParseError(format!(
+                "Element count {count} ({element_size} bytes each) exceeds the {remaining} bytes remaining in the chunk"
+            )));
+        }
+        Ok(count as usize)
     }
 
     /// Check if we've reached the end of the chunk
